@@ -1326,6 +1326,9 @@ func (g *Gen) Program(id string) *Prog {
 	if g.o.Structs && g.o.Lib && g.r.Intn(2) == 0 {
 		insert(g.addShowDemo())
 	}
+	if !g.o.NoGlobals && !g.o.Packages && g.r.Intn(4) == 0 {
+		insert(g.addConstGroupDemo())
+	}
 	g.prog.Funcs = append(g.prog.Funcs, &Func{Name: "Main", Body: body})
 	if g.o.Packages {
 		g.prog.Split = g.prog.chooseSplit(g.r)
